@@ -2,7 +2,7 @@
 namespace ConcVerif.DD
 
 /-- moving the selected elements out of a list neither loses nor duplicates anything -/
-theorem count_split (vec : List Nat) (p : Nat → Bool) (k : Nat) :
+theorem count_split {α : Type} [BEq α] [LawfulBEq α] (vec : List α) (p : α → Bool) (k : α) :
     (vec.filter (fun j => !(vec.filter p).contains j)).count k + (vec.filter p).count k = vec.count k := by
   by_cases hp : p k = true
   · have h1 : (vec.filter p).count k = vec.count k := List.count_filter hp
@@ -25,7 +25,8 @@ theorem count_split (vec : List Nat) (p : Nat → Bool) (k : Nat) :
     omega
 
 /-- a filter of a list is duplicate-free when the selected elements occur once -/
-theorem nodup_filter_of_count (vec : List Nat) (p : Nat → Bool) (h : ∀ k, p k = true → vec.count k ≤ 1) :
+theorem nodup_filter_of_count {α : Type} [BEq α] [LawfulBEq α] (vec : List α) (p : α → Bool)
+    (h : ∀ k, p k = true → vec.count k ≤ 1) :
     (vec.filter p).Nodup := by
   induction vec with
   | nil => simp
